@@ -90,7 +90,7 @@ def run(pid, tier, seed):
         if tier == "thorough":
             # the same queue with multi-node demand as well (1.4 M states)
             mc["with_multi_node_demand"] = common.model_check_cached("MC_AutoAlloc.tla", "MC_AutoAlloc_mn.cfg", ["AutoAlloc.tla"], timeout=3 * 3600)
-        mc["invariants_of_this_property"] = [f for f in ("C17_BacklogBound", "C17_WorkerBound", "C17_AllocSize", "C17_SubmitOnlyWhenAllowed", "C17_ResumeHasEffect",
+        mc["invariants_of_this_property"] = [f for f in ("C17_BacklogBound", "C17_WorkerBound", "C17_AllocSize", "C17_BackoffCoversFailures", "C17_SubmitOnlyWhenAllowed", "C17_ResumeHasEffect",
                                                            "C18_RunningShape", "C18_FinishedShape", "C18_StartEndOnce", "C18_ConnectedExact", "C18_Monotone") if f.startswith(pid)]
         mc["constants"] = "1 queue, backlog 2, max 2 workers/allocation, worker limit 3, 2 allocations, 2 worker ids, demand 0..2, time 0..2, fail limits 2/2"
         coverage = {"mc": mc, "states": sum(r[1] for r in results), "transitions": sum(r[2] for r in results),
